@@ -2,7 +2,7 @@
 get_dataarray_resolution (NumPy backend) on a list of jobs and prints one encoded case per job.
 
 stdin: {"jobs": [...]}.  job = {kind, H, W, vals (rows; numbers or "nan"), dtype,
-        meta {rk, rx [n,d], ry [n,d], xs [ints], ys [ints], cd}, az, alt, ...}
+        meta {rk, rx [n,d], ry [n,d], xs [ints], ys [ints], cd}, az, alt, chunks ([rows, cols] -> Dask), ...}
 
 kinds  F  formula case -> all four outputs, bridged to integers (see spec/Stencil_Judge.tla)
        G  general raster (floats) -> outputs as integers + NaN mask
@@ -80,6 +80,9 @@ def build(j, vals=None):
         attrs["res"] = (rx, ry, 1)
     elif rk == "str":
         attrs["res"] = "30m"
+    if j.get("chunks"):          # Dask backend: the same raster wrapped as a dask array with the given chunking
+        import dask.array as da
+        a = da.from_array(a, chunks=(tuple(j["chunks"][0]), tuple(j["chunks"][1])))
     return xr.DataArray(a, dims=["y", "x"], coords=coords, attrs=attrs, name="elev")
 
 
@@ -87,8 +90,17 @@ def run4(r, j):
     kw = {}
     if "az" in j:
         kw = dict(azimuth=j["az"], angle_altitude=j["alt"])
-    return {"slope": np.asarray(slope(r).data), "aspect": np.asarray(aspect(r).data),
-            "curvature": np.asarray(curvature(r).data), "hillshade": np.asarray(hillshade(r, **kw).data)}
+    outs = {"slope": slope(r).data, "aspect": aspect(r).data, "curvature": curvature(r).data,
+            "hillshade": hillshade(r, **kw).data}
+    if j.get("chunks"):
+        # the result must be lazy until computed; compute on the deterministic single-threaded scheduler
+        _lazy[0] = all(type(v).__module__.startswith("dask") for v in outs.values())
+        return {f: np.asarray(v.compute(scheduler="synchronous")) for f, v in outs.items()}
+    _lazy[0] = True
+    return {f: np.asarray(v) for f, v in outs.items()}
+
+
+_lazy = [True]
 
 
 def bitdiff(a, b):
@@ -125,7 +137,7 @@ def case_F(j):
          "g": [[NAN if v == "nan" else int(v) for v in row] for row in j["vals"]],
          "rk": m["rk"], "rx": m["rx"], "ry": m["ry"], "xs": m["xs"], "ys": m["ys"], "cd": m["cd"],
          "sk": SK, "ck": KC,
-         "shape_ok": int(all(o[f].shape == (H, W) for f in FNS))}
+         "shape_ok": int(all(o[f].shape == (H, W) for f in FNS)), "lazy_ok": int(_lazy[0])}
     if not c["shape_ok"]:
         for f in ("slope", "slo", "shi", "aspect", "alo", "ahi", "curv", "clo", "chi", "hill", "hcand"):
             c[f] = []
